@@ -165,6 +165,9 @@ def run(ck: Check):
               b"\n", b"\\'", b'\\"', b"x = ", b"DDBEGIN\n", b"DDEND\n", b"\\u{12", b"\xff"]
     atfrag = [b"<a", b"<b-c", b"< d", b">", b" e", b" f=", b"g", b'"h i"', b"'j'", b"=", b" ", b"\n",
               b"/", b"k:l", b'"', b"'", b"<", b"x>y", b"DDBEGIN\n", b"DDEND\n", b"\t", b"\r"]
+    from boundaries import mined_texts
+    jsfrag += mined_texts(24)       # texts a changed tree special-cases (nothing on the unchanged tree)
+    atfrag += mined_texts(24)
     for _ in range(1500 if quick else 20000):
         n = r.randint(3, 40)
         one("jsstr", b"".join(r.choice(jsfrag) for _ in range(n)))
